@@ -416,6 +416,7 @@ func (r *recEvents) SendReportSpan(s interop.Span) error {
 // ---------------------------------------------------------------- actors
 
 type actor struct {
+	lastStatus atomic.Int64 // status of the last answered call (0: none / failed)
 	h        *host
 	id       string // role#launch | driver
 	procName string
@@ -564,6 +565,7 @@ func (a *actor) do(st *Step, idx int, call, method, path string, hdr map[string]
 		}
 	}
 	a.h.record(ev)
+	a.lastStatus.Store(int64(res.status))
 	return res
 }
 
@@ -961,6 +963,14 @@ func (a *actor) exec(st *Step, idx int) bool {
 			if !a.step(&sub, idx) {
 				return false
 			}
+			if a.lastStatus.Load() != 200 {
+				// refused: do not spin (a refused poll or a refused answer followed by a re-poll that is answered at once
+				// made this loop burn a core, sixteen hosts at a time)
+				if !a.sleep(15) {
+					return false
+				}
+				continue
+			}
 			if st.Ms > 0 && !a.sleep(st.Ms) {
 				return false
 			}
@@ -976,6 +986,9 @@ func (a *actor) exec(st *Step, idx int) bool {
 				rs = Step{Op: "rt.response", ID: "cur", BodyMode: "transform", Tag: st.Tag}
 			}
 			if !a.step(&rs, idx) {
+				return false
+			}
+			if a.lastStatus.Load() >= 400 && !a.sleep(15) {
 				return false
 			}
 		}
